@@ -4,6 +4,7 @@ import (
 	"fmt"
 	"go/ast"
 	"go/constant"
+	"go/token"
 	"go/types"
 	"sort"
 	"strings"
@@ -231,6 +232,48 @@ func checkNoGoQuoting(p *Prog, r *Result, rule string) int {
 				bad+" writes Go syntax, not JSON: a control character comes out as \\x1b or \\a, which is not a JSON escape — Encode fails on a valid tree (a raw ESC in a literal or a comment), or writes a document Decode refuses")
 			return true
 		})
+	}
+	return n
+}
+
+// R15l: Decode builds positions with syntax.NewPos, which can produce every valid position and no other: an unset or a
+// recovered position cannot be built from its numbers. So Encode writes a position only when it is valid — every store
+// in encodePos is reached only past `val.IsValid()` — or a tree with such a position does not re-encode to the same
+// bytes after a decode.
+func checkOnlyValidPositionsEncoded(p *Prog, r *Result, rule string) int {
+	pkg := p.Pkg("syntax/typedjson")
+	info := pkg.TypesInfo
+	fd := p.FuncDecl("syntax/typedjson", "encodePos")
+	if fd == nil {
+		r.Undecided(rule, "syntax/typedjson.encodePos", token.NoPos, "anchor not found")
+		return 0
+	}
+	g := NewFGraph(info, fd.Body, nil)
+	n := 0
+	for _, b := range g.Blocks {
+		for _, nd := range b.Nodes {
+			writes := false
+			for _, c := range nodeCalls(nd) {
+				if se, ok := ast.Unparen(c.Fun).(*ast.SelectorExpr); ok && strings.HasPrefix(se.Sel.Name, "Set") {
+					writes = true
+				}
+			}
+			if !writes {
+				continue
+			}
+			n++
+			key := fmt.Sprintf("%s#write %d happens only for a valid position", funcKey("syntax/typedjson", fd), n)
+			ok := underEdges(g, b, func(e *FEdge) bool {
+				c, isCall := ast.Unparen(e.Cond).(*ast.CallExpr)
+				if !isCall || e.Tag != nil {
+					return false
+				}
+				se, isSel := ast.Unparen(c.Fun).(*ast.SelectorExpr)
+				return isSel && se.Sel.Name == "IsValid" && e.Pol
+			})
+			r.Check(ok, rule, key, nd.Pos(), "reached only past the true answer of IsValid()",
+				"encodePos writes a position on a path where IsValid() was not found true: a recovered (or unset) position is encoded as numbers from which Decode, which builds positions with NewPos, makes another position — the decoded tree re-encodes to different bytes")
+		}
 	}
 	return n
 }
